@@ -110,7 +110,8 @@ def features(cls: type) -> set[str]:
                 import typing
 
                 if typing.get_origin(f.type) is not tuple and type(None) in typing.get_args(f.type):
-                    feats.add("nullable_struct")
+                    inner = [a for a in typing.get_args(f.type) if a is not type(None)][0]
+                    feats.add("nullable_struct" if dataclasses.is_dataclass(inner) else "nullable_struct_array")
     return feats
 
 
